@@ -127,6 +127,27 @@ def c20_extra(tier, seed, cov, notes, ctx):
     return viol
 
 
+def c08_extra(tier, seed, cov, notes, ctx):
+    """Search the real crate (debug profile, overflow checks on) for a panicking operation sequence."""
+    import re
+    rc, out, dt = ctx.sh([ctx.HARNESS, 'findpanic'], timeout=1800)
+    viol = []
+    cov['findpanic'] = [l for l in out.strip().split('\n')]
+    for m in re.finditer(r'^PANIC (\S+) (\S+)', out, re.M):
+        stage, inp = m.group(1), m.group(2)
+        if stage == 'ps2':
+            rep = {'property': 'C08', 'kind': 'bits', 'input_text': 'bit ops ' + inp, 'harness_cmd': ['replay', 'bits', inp],
+                   'expected': 'a value, not a panic', 'model_actual': 'P'}
+        else:
+            rep = {'property': 'C08', 'kind': 'bytesN', 'input_text': '%s bytes %s' % (stage, inp), 'harness_cmd': ['replay', 'bytes', stage, inp],
+                   'expected': 'a value, not a panic', 'model_actual': 'P'}
+        rc2, out2, dt2 = ctx.sh([ctx.HARNESS] + rep['harness_cmd'])
+        rep['crate_actual'] = out2.strip()
+        rep['confirmed_on_crate'] = out2.strip().endswith('P')
+        viol.append((ctx.write_replay('C08', 'cex', rep), ''))
+    return viol
+
+
 PROPS = {
     'C20': {
         'level': 'other',
@@ -148,6 +169,7 @@ PROPS = {
                     ('Cex/C08b_syn', 'bits'), ('Cex/C14_syn', 'evstep')],
         'replay_kind': 'layout',
         'cex_filter': 'panic',
+        'extra': c08_extra, 'extra_always': True,
         'assumptions': ['stack use and code generation are outside any source-level model'],
     },
     'C17': lay_prop('C17'),
